@@ -51,12 +51,12 @@ type history struct {
 type finding struct{ sig, what string }
 
 type judgeStats struct {
-	accepted, refused, newIns, inflight  int64
-	deliveries, units, coalesced         int64
-	orderJudged, orderAmbiguous          int64
-	prefixJudged                         int64
-	closedTold, ctxTold                  bool
-	lowerJudged                          bool
+	accepted, refused, newIns, inflight   int64
+	deliveries, units, coalesced          int64
+	orderJudged, orderAmbiguous           int64
+	prefixJudged                          int64
+	closedTold, ctxTold                   bool
+	lowerJudged                           bool
 	undeliveredInflight, recoveredByDrain int64
 }
 
